@@ -602,17 +602,37 @@ func c10R7(e *Engine) {
 					return
 				}
 				governed := false
+				extra := ""
 				for _, cd := range condsAt(j.Block()) {
 					cd = normCond(cd)
 					if cd.V == okV && cd.Val {
 						governed = true
+						continue
 					}
+					// earlier member tests that failed, loop progress and nil guards of elements are not restrictions of
+					// THIS member's case; anything else (a length test, say) sends some values of the member elsewhere
+					if ex, isEx := cd.V.(*ssa.Extract); isEx {
+						if _, isTA := ex.Tuple.(*ssa.TypeAssert); isTA {
+							continue
+						}
+						if _, isNext := ex.Tuple.(*ssa.Next); isNext {
+							continue
+						}
+					}
+					if isProgressCond(cd.V) {
+						continue
+					}
+					extra = cd.V.String()
 				}
 				if !governed {
 					return
 				}
 				n++
 				construct := e.fname(fn) + ":member[" + member + "]:tag-field-set"
+				if extra != "" {
+					e.fail("R7", construct, e.ipos(j), "the %s case is entered only when additionally %s holds: the other values of that member (the empty list, the empty map, …) fall through to another type – in this client only", member, extra)
+					return
+				}
 				if nn.val(st.Val, j.Block()) {
 					e.pass("R7", construct, e.ipos(j), "Item.%s is non-nil for every %s member, empty or not", member, member)
 				} else {
